@@ -71,7 +71,9 @@ def _simple_send_tensors(
         dist.all_gather(gathered_result, tensor, group=group)
     else:
         # sync tensors only to specified rank
-        dist.gather(tensor, gathered_result, dst=rank, group=group)
+        dist.gather(
+            tensor, gathered_result, dst=_to_global_rank(group, rank), group=group
+        )
 
     return gathered_result
 
@@ -377,7 +379,10 @@ def _sync_obj_states(
     else:
         # if rank is specified, send object only to that rank
         dist.gather_object(
-            my_state_data, gathered_obj_data, dst=rank, group=process_group
+            my_state_data,
+            gathered_obj_data,
+            dst=_to_global_rank(process_group, rank),
+            group=process_group,
         )
 
     if create_obj_gather_list:
